@@ -103,7 +103,9 @@ def run(entries, workname, design_L=None, design_ws=(), product_depth=8, do_prod
                 if b in seen:
                     continue
                 seen.add(b)
-                ne = pipeline.Entry(gid, e.g, e.mode, e.tla, e.desc)
+                import copy
+                ne = copy.copy(e)            # same kind of translation unit (custom lexer, term set, functor-less rules, ...)
+                ne.traces, ne.dump, ne.diag = [], None, None
                 ne.jobs = [('%s:w%d' % (gid, len(seen)), 0, 0, 1, 1, 1, list(b))]
                 extra.append(ne)
         # entries with the same gid must run in one go: merge job lists per gid
